@@ -395,6 +395,24 @@ def rtmetaHolds (names : Option (List String)) (auto fakeAuto : Bool) (m : MResp
     (wantAsked || front == s!"asked=0 {specFilter names m}")
   | _ => false
 
+/-- CreateTopics through roundTrip: the controller creates the topic (partitions led round-robin by the sorted broker
+ids) unless it exists (TOPIC_ALREADY_EXISTS 36); roundTrip then waits (`topicsToRefresh`, `refreshDone`) until every
+error-free topic of the answer is in the cached layout, so a follow-up metadata request is served from a cache that
+already lists it -/
+def rtcreateModel (name : String) (np : Nat) (m : MResponse) : String :=
+  let exists_ := m.topics.any (·.name == name)
+  let code : Int := if exists_ then 36 else 0
+  let ids := sortBy (fun a b => decide (a < b)) (m.brokers.map (·.nodeID))
+  let created : MTopic := ⟨0, name, false, (List.range np).map fun i =>
+    let l := ids.getD (i % ids.length) 0
+    ⟨0, Int.ofNat i, l, [l], [l], []⟩⟩
+  let m' := if exists_ then m else { m with topics := m.topics ++ [created] }
+  let wait := KV.RoundTrip.topicsToRefresh [(name, code)]
+  let cache := normalize m'
+  -- the cache the follow-up sees: refreshed iff something was waited for
+  let seen := if wait.isEmpty then normalize m else cache
+  s!"code={code} after={showMTopics (filterMetadata (some [name]) seen).topics}"
+
 /-! ### dispatcher -/
 
 def kv (pfx : String) (s : String) : Option String :=
@@ -472,6 +490,13 @@ def step (line : String) : String :=
         let names := if ns == "nil" then none else some (splitD ns ",")
         answer (rtmetaModel names (auto == "1") (fauto == "1") m) (rtmetaHolds names (auto == "1") (fauto == "1") m impl)
       | none => "bad-op"
+    | ["rtcreate", name, np, m] =>
+      match parseMeta m, np.toNat? with
+      | some m, some np =>
+        let want := rtcreateModel name np m
+        -- monitor: the topic the cluster now has is what the cache reports right after CreateTopics returned
+        answer want (impl == want)
+      | _, _ => "bad-op"
     | ["follow", _, faults] =>
       match kv "faults=" faults with
       | some fs => answer (followModel (splitD fs ",")) (impl == "within=1 gap=1")
